@@ -64,6 +64,9 @@ func (b *Bytes) View(start, end int64) (Blob, error) {
 	if end < 0 || end > int64(b.Len()) {
 		return nil, fmt.Errorf("End index out of bounds: %d", end)
 	}
+	if start > end {
+		return nil, fmt.Errorf("Start index %d is greater than end index %d", start, end)
+	}
 	b.mu.Lock()
 	defer b.mu.Unlock()
 	newB := NewBytes(b.bytes[start:end])
@@ -78,6 +81,9 @@ func (b *Bytes) Slice(start, end int64) (Blob, error) {
 	}
 	if end < 0 || end > int64(b.Len()) {
 		return nil, fmt.Errorf("End index out of bounds: %d", end)
+	}
+	if start > end {
+		return nil, fmt.Errorf("Start index %d is greater than end index %d", start, end)
 	}
 	buf := make([]byte, end-start)
 	b.mu.Lock()
